@@ -27,7 +27,7 @@ def run(tier):
     common.replay_witnesses(ck, ["hook"])
     common.replay_known(ck)
     avoid = ck.findings.avoid_tags()
-    n = 2500 if quick else 60000
+    n = 2500 if quick else 60000 * common.TS
     plist = []
     for name, prof in profiles(avoid):
         rng = ck.rng.fork(name)
@@ -37,7 +37,7 @@ def run(tier):
 
     from ..gen import feat_fiber as _ff
     rxf = ck.rng.fork("xmodfib")
-    for i in range(250 if quick else 8000):
+    for i in range(250 if quick else 8000 * common.TS):
         _src, _mods = _ff.xmod_fiber_program(rxf.fork(str(i)))
         plist.append({"name": "xmodfiber/%d" % i, "steps": [("snip", _src)], "mods": _mods})
 
@@ -60,7 +60,7 @@ def run(tier):
     cases = []
     meta = {}
     rng = ck.rng.fork("relB")
-    for i in range(600 if quick else 20000):
+    for i in range(600 if quick else 20000 * common.TS):
         nm, pr = others[i % len(others)]
         src, mods = progs.generate(rng.fork(str(i)), pr)
         for how in ("plain", "fiber"):
